@@ -60,10 +60,12 @@ def run(tier, only=None):
     aff_eml = [(20, a) for a in (1, 3, 7, 9)] + [(21, a) for a in (3, 9, 10)]
     for f, a in aff_general + aff_eml:
         fn = "h_general" if f < 20 else "h_eml"
-        conds.append(Cond("harness.h_c07", fn, t, part=f, ladder=ladder, affix=a,
+        lad = [1] if (tier == "quick" and (f in (21, 2) or (f == 20 and a == 1))) else ladder          # attribute values inside long concrete text: length 1 in the quick tier
+        conds.append(Cond("harness.h_c07", fn, t, part=f, ladder=lad, affix=a,
                           label="%s[%s, around %r...%r]" % (fn, FIELDS[f], AFFIXES[a][0][:8], AFFIXES[a][1][:4])))
     if only:
         conds = [c for c in conds if only in c.label]
+    conds.sort(key=lambda c: 0 if (c.affix and "h_eml" in c.label) else (1 if c.affix else 2))      # longest first
     rep.bounds = {"string_length": "<= %d (ladder %r)" % (ladder[0], ladder),
                   "affixes": "selected fields also with the symbolic string embedded in concrete text (40/70-character runs; fragments such as '&&&]]', '<<<]]', '&am', '&#...;', digits, U+2028 + astral, backslashes) so that one or two symbolic characters can complete a multi-character token",
                   "alphabet": "class representatives: a 1 space < > & \" ' ] e-acute euro-sign U+1F600, text also TAB and LF (CR and non-Chars are outside the property)",
